@@ -1,0 +1,17 @@
+//go:build verif
+
+// Verification hook (build tag "verif" only): exports the tier flattener and the priority rewriter that
+// endpoint_mgr.go applies to the per-tier rule lists returned by policysets.GetPolicySetRules, for the
+// /verif runtime monitors (property C30).  Additive; nothing here is compiled into a normal build.
+
+package windataplane
+
+import (
+	"github.com/projectcalico/calico/felix/dataplane/windows/hns"
+)
+
+// VerifFlattenTiers calls flattenTiers (tiers must be non-empty, as in endpoint_mgr.go).
+func VerifFlattenTiers(tiers [][]*hns.ACLPolicy) []*hns.ACLPolicy { return flattenTiers(tiers) }
+
+// VerifRewritePriorities calls rewritePriorities.
+func VerifRewritePriorities(policies []*hns.ACLPolicy, limit uint16) { rewritePriorities(policies, limit) }
